@@ -9,7 +9,7 @@ sys.path.insert(0, VERIF)
 from checklib.props import PROPS
 
 def sh(cmd, cwd=None):
-    p = subprocess.run(cmd, cwd=cwd, stdout=subprocess.PIPE, stderr=subprocess.STDOUT, text=True)
+    p = subprocess.run(cmd, cwd=cwd, shell=isinstance(cmd, str), stdout=subprocess.PIPE, stderr=subprocess.STDOUT, text=True)
     return p.returncode, p.stdout
 
 def main():
@@ -29,7 +29,18 @@ def main():
             print("repo dirty, refusing"); return 2
         rc, out = sh(["git", "apply", os.path.join(d, "patch.diff")], cwd=REPO)
         if rc != 0:
-            print(f"{sid}: patch does not apply: {out[-300:]}"); continue
+            # the patch was cut against an older commit: try a three-way merge (clean merges only)
+            rc, out = sh(["git", "apply", "--3way", os.path.join(d, "patch.diff")], cwd=REPO)
+            sh(["git", "reset", "-q"], cwd=REPO)
+            if rc != 0 or "with conflicts" in out:
+                sh(["git", "checkout", "--", "."], cwd=REPO)
+                meta["check_run"] = {"verdict": "patch no longer applies to HEAD (the code it changed was rewritten by a later fix)", "apply_output": out[-300:]}
+                json.dump(meta, open(meta_p, "w"), indent=1)
+                print(f"{sid}: patch does not apply: {out[-200:]}"); continue
+            rcb, outb = sh("GOFLAGS=-mod=mod GOPROXY=off go build ./...", cwd=REPO)
+            if rcb != 0:
+                sh(["git", "checkout", "--", "."], cwd=REPO)
+                print(f"{sid}: merged patch does not build"); continue
         t = time.time()
         try:
             rc, out = sh([os.path.join(VERIF, "check"), prop, "--tier", "quick"], cwd=VERIF)
